@@ -341,6 +341,15 @@ ResolveWait(t) ==
   /\ ApplyMem(SetSt(Mem, t, waited[t]))
   /\ UNCHANGED <<graphVars, atTime, clean, now, running, stopped, c02bad, redoBad, everDone, everUndone, failedDo, failedUndo, aborted, budget>>
 
+\* A manager sets the status of a pending task directly, without aborting its followers (e.g. snapstate's
+\* aliases-v2 migration flags old pending "alias" tasks as Error). Not part of Next (it is not an engine
+\* step); used by the trace spec for directed executions: followers then stay in Do, they must never start.
+ManagerSetStatus(t, s) ==
+  /\ status[t] = "Do" /\ t \notin running
+  /\ s \in {"Error", "Hold", "Done", "Undone"}
+  /\ ApplyMem(SetSt(Mem, t, s))
+  /\ UNCHANGED <<graphVars, atTime, clean, now, running, stopped, c02bad, redoBad, everDone, everUndone, failedDo, failedUndo, aborted, budget>>
+
 Tick ==
   /\ now < MaxTime
   /\ now' = now + 1
